@@ -102,7 +102,7 @@ def main(tier):
            key="writers|%s" % why, nontrivial="roles")
     roles = roles or {}
     run.extra["stamp_roles"] = roles
-    FREE, NEW = "crate::arena::Arena<T>::free_node", "crate::arena::Arena<T>::new_node"
+    FREE, NEW = rules.free_node_key(prog), "crate::arena::Arena<T>::new_node"
     sites = [s for s in rules.field_sites(prog, STAMP, "0") if s["kind"] in ("write", "mutref")]
     fns = sorted({s["fn"] for s in sites if not prog.fns[s["fn"]].get("impl_derived")})
     extra = [f for f in fns if f not in (roles.get("removed"), roles.get("reuse"))]
